@@ -20,6 +20,7 @@ import (
 
 	"github.com/goreleaser/nfpm/v2"
 	"github.com/goreleaser/nfpm/v2/files"
+	"gopkg.in/yaml.v3"
 )
 
 type reproDesc struct {
@@ -227,6 +228,17 @@ func runC07Case(w *caseWriter, id string, d reproDesc, first map[string]string, 
 					w.line("rstamp %s %s %d", xs(f), xs(s.Where), s.Value)
 					st.stamps++
 				}
+				// the rpm build host: the one the document fixes (read with a plain decoding: the rpm block of the format's
+				// override block, the top-level rpm block otherwise), never a name taken from the machine
+				if f == "rpm" {
+					if want, ok := plainScalar(d.YAML, "rpm", "rpm", "buildhost"); ok && want != "" && !strings.Contains(want, "$") {
+						for _, m := range o.Meta {
+							if m.K == "BuildHost" {
+								w.line("rhost %s %s", xs(want), xs(m.V))
+							}
+						}
+					}
+				}
 			}
 		}
 	}
@@ -400,6 +412,31 @@ func cmdC07(tier string, seed int64, out, statsOut, replay string) {
 			gen.cfg.MTime = time.Time{}
 			d = reproDesc{YAML: marshalConfig(&gen.cfg), Files: gen.files, SDE: []string{"0", "1700000123", "1"}[(i/4)%3]}
 		}
+		// every fourth states the rpm build host in the rpm block of the rpm override block (key as documented)
+		if i%4 == 1 {
+			var doc map[string]any
+			if yaml.Unmarshal([]byte(d.YAML), &doc) == nil {
+				ovs, _ := doc["overrides"].(map[string]any)
+				if ovs == nil {
+					ovs = map[string]any{}
+				}
+				ov, _ := ovs["rpm"].(map[string]any)
+				if ov == nil {
+					ov = map[string]any{}
+				}
+				blk, _ := ov["rpm"].(map[string]any)
+				if blk == nil {
+					blk = map[string]any{}
+				}
+				blk["buildhost"] = "override-host.example"
+				ov["rpm"], ovs["rpm"], doc["overrides"] = blk, ov, ovs
+				if b, err := yaml.Marshal(doc); err == nil {
+					if _, perr := parseDoc(string(b)); perr == nil {
+						d.YAML = string(b)
+					}
+				}
+			}
+		}
 		descs = append(descs, d)
 		// first pass: the builds every later build of this configuration is compared with
 		writeExtraFiles(d.Files)
@@ -429,4 +466,29 @@ func cmdC07(tier string, seed int64, out, statsOut, replay string) {
 	}
 	writeJSON(statsOut, map[string]any{"floors": floors, "cases": st.cases, "builds_compared": st.builds, "child_processes": st.procs, "child_environments": st.envs,
 		"timestamps_decoded": st.stamps, "distinct": len(st.distinct), "distinct_nontrivial": len(st.distinct), "samples": st.samples})
+}
+
+// plainScalar: <block>.<key> as the document gives it to the format (overrides.<format>.<block>.<key> when that is a
+// non-empty string, the top-level one otherwise), read with a plain YAML decoding
+func plainScalar(yamlText, format, block, key string) (string, bool) {
+	var doc map[string]any
+	if yaml.Unmarshal([]byte(yamlText), &doc) != nil {
+		return "", false
+	}
+	get := func(m map[string]any) (string, bool) {
+		b, ok := m[block].(map[string]any)
+		if !ok {
+			return "", false
+		}
+		v, ok := b[key].(string)
+		return v, ok && v != ""
+	}
+	if ovs, ok := doc["overrides"].(map[string]any); ok {
+		if ov, ok := ovs[format].(map[string]any); ok {
+			if v, ok := get(ov); ok {
+				return v, true
+			}
+		}
+	}
+	return get(doc)
 }
